@@ -101,6 +101,11 @@ CHECKS = {
             'model_checking flavour for the discrete half (exhaustive over catalog x options x every feasible point), exploration for the continuous clauses (round trip within tolerance, unit interval, '
             'monotone orientation with end points 0 and 1, exactly-one-hot rows, decoding of 12 arbitrary arrays incl. +-1e9 into the space, label round trip under both sign conventions).',
             'Magnitudes from the catalog; jnp_converters padding and ProblemAndTrialsScaler are not covered.'),
+    'C18': (EX, '5 C18', 'Warp.tla: TLC enumerates every weak order with missing entries of arrays of length <= 4 (thorough 5); the driver concretises each with 7 magnitude palettes and runs '
+            'the real default / warp-outliers pipelines and every component; TLC judges the outputs on exact order keys',
+            'The order structure (ties, duplicates, missing-entry patterns) is exhaustive, magnitudes are a palette: same shape, all finite, input untouched, infeasible <= worst feasible, '
+            'same weak order (default pipeline and its components), no reversal (everything), unwarp(warp(x)) = x where an inverse exists (complete arrays with >= 2 distinct values).',
+            'Components other than InfeasibleWarper get complete, non-degenerate arrays (the pipelines handle missing entries and single-value inputs by documented shortcuts); DetectOutliers may mark entries NaN by design.'),
 }
 
 PENDING = {
